@@ -8,6 +8,8 @@ from dataclasses import replace
 from ..astutil import controlling_atoms, u
 from ..cfg import flow
 from ..identity import identities
+from typing import Optional
+
 from ..model import AnalysisError, Fn, Prog, loc
 from ..report import Ctx
 from . import common
@@ -97,15 +99,17 @@ def rules(ctx: Ctx) -> None:
            f"owner candidates are one node")
     SH = prog.cls("core.holders.SQLLineageHolder")
 
-    def _pair_list(fn: Fn, name: str) -> bool:
-        """`name` is bound to a list comprehension over <graph>.edges filtered on parent_candidates."""
-        return any(kind == "assign" and isinstance(node.value, ast.ListComp) and isinstance(node.value.generators[0].iter, ast.Attribute) and node.value.generators[0].iter.attr == "edges"
-                   and "parent_candidates" in u(node.value) for kind, node in prog.local_defs(fn, name))
+    def _pair_list(fn: Fn, it: ast.AST) -> Optional[ast.ListComp]:
+        """the iterated expression is (a local bound to) a list comprehension over <graph>.edges filtered on parent_candidates"""
+        for v in prog.value_sources(fn, it):
+            if isinstance(v, ast.ListComp) and isinstance(v.generators[0].iter, ast.Attribute) and v.generators[0].iter.attr == "edges" and "parent_candidates" in u(v):
+                return v
+        return None
 
     fold = None
     pair_loops = []
     for m in SH.methods.values():
-        pls = [n for n in prog.walk_fn(m) if isinstance(n, ast.For) and isinstance(n.target, ast.Tuple) and len(n.target.elts) == 2 and isinstance(n.iter, ast.Name) and _pair_list(m, n.iter.id)]
+        pls = [n for n in prog.walk_fn(m) if isinstance(n, ast.For) and isinstance(n.target, ast.Tuple) and len(n.target.elts) == 2 and _pair_list(m, n.iter) is not None]
         if pls:
             fold, pair_loops = m, pls
     if fold is None or len(pair_loops) != 1:
@@ -124,8 +128,8 @@ def rules(ctx: Ctx) -> None:
             ctx.ob("R04.3", "repair:no-pair-is-skipped", False, loc(fold.mod, k), f"`{type(k).__name__.lower()}` in the pair loop: a pair is skipped depending on earlier iterations")
     ctx.ob("R04.3", "repair:pairs-independent", True, loc(fold.mod, PL), "pair loop scanned", trivial=True)
     # the list of pairs is computed before the loop from the whole graph
-    pdefs = [node.value for kind, node in prog.local_defs(fold, PL.iter.id) if kind == "assign"]
-    ok_pairs = len(pdefs) == 1 and isinstance(pdefs[0], ast.ListComp) and isinstance(pdefs[0].generators[0].iter, ast.Attribute) and pdefs[0].generators[0].iter.attr == "edges" and "parent_candidates" in u(pdefs[0])
+    plc = _pair_list(fold, PL.iter)
+    ok_pairs = plc is not None and len(prog.value_sources(fold, PL.iter)) == 1 and len(plc.generators) == 1
     ctx.ob("R04.3", "repair:pairs-are-all-edges-leaving-unresolved-columns", ok_pairs, loc(fold.mod, PL), "every edge leaving a multi-candidate column is a pair to repair")
     # orphan sweep after the loop
     fcfg = flow(prog, fold).cfg
